@@ -266,8 +266,8 @@ func c17GoBindings(r *c17Result, ver string, t ptree.Tree) {
 	// struct tags of api.pb.go
 	type tagInfo struct {
 		wire, label, name, enum string
-		num                      int
-		oneof                    bool
+		num                     int
+		oneof                   bool
 	}
 	structs := map[string][]tagInfo{}
 	ast.Inspect(pbFile, func(n ast.Node) bool {
